@@ -48,12 +48,13 @@ type StoreRec struct {
 
 // Obs is everything observed in one execution.
 type Obs struct {
-	Events   []Event
-	Returned bool
-	Dropped  int                 // results logged but never forwarded when the results channel was closed
-	Failed   bool                // state.Failures() "anything"
-	Deps     map[string][]string // resolved deps per built target (from the graph at the end)
-	Stores   []StoreRec          // every Cache.Store call: key and file list
+	Events     []Event
+	Returned   bool
+	Dropped    int                 // results logged but never forwarded when the results channel was closed
+	Failed     bool                // state.Failures() "anything"
+	Deps       map[string][]string // resolved deps per built target (from the graph at the end)
+	Stores     []StoreRec          // every Cache.Store call: key and file list
+	Unresolved map[string][]string // per target: declared dependencies that were never resolved to any target
 }
 
 func (o *Obs) String() string {
@@ -172,6 +173,14 @@ func Body(sc Scenario, obs *Obs) func() {
 			}
 			sort.Strings(ds)
 			obs.Deps[t.Label.String()] = ds
+			for _, l := range t.DeclaredDependencies() {
+				if len(t.DependenciesFor(l)) == 0 {
+					if obs.Unresolved == nil {
+						obs.Unresolved = map[string][]string{}
+					}
+					obs.Unresolved[t.Label.String()] = append(obs.Unresolved[t.Label.String()], l.String())
+				}
+			}
 		}
 		vsched.End()
 	}
